@@ -429,33 +429,75 @@ def inventory(fn, rule, items, metas, root=None, fixed=None, required=True, orde
         seen_inst[it[0]] = k + 1
         uniq.append((it[0] if k == 0 else '%s (%d)' % (it[0], k + 1), it[1]))
     pats = [(it[0], sym.parse_pattern(it[1], mkN()), it[1]) for it in uniq]
-    metas = metas if isinstance(metas, dict) else set(metas)
+    # definition maps for expansion (temporaries inlined or introduced by the code)
+    mnames = metas if isinstance(metas, dict) else {m: m for m in metas}
+    targets = {}
+    stored = set()
+    for inst, pat, src in pats:
+        if pat[0] == 'assign' and len(pat[1]) == 1 and isinstance(pat[1][0], tuple) and pat[1][0][0] == 'var' and pat[1][0][1] in mnames:
+            targets.setdefault(pat[1][0][1], []).append(pat[2])
+        # roots of stores / mutator calls / augmented assignments must not be expanded
+        txt = repr(pat)
+        for m in mnames:
+            if (pat[0] == 'assign' and any(isinstance(t, tuple) and t[0] in ('idx', 'attr') and repr(('var', m)) in repr(t) for t in pat[1])) \
+                    or (pat[0] == 'aug' and repr(('var', m)) in repr(pat[2])) \
+                    or (pat[0] == 'expr' and repr(('attr', ('var', m), 'append')) in txt):
+                stored.add(m)
+    pdefs = {m: v[0] for m, v in targets.items() if len(v) == 1 and m not in stored and m not in (fixed or {})}
+    cdefs = {}
+    counts = {}
+    for n_ in fn.cfg.nodes:
+        for nm in fn.rd.gen[n_.id]:
+            counts[nm] = counts.get(nm, 0) + 1
+    mutated = set()
+    for n_ in fn.cfg.nodes:
+        mutated |= fn.rd.mods[n_.id]
+    for c in fn.calls():
+        if isinstance(c.func, ast.Attribute) and isinstance(c.func.value, ast.Name) and c.func.attr in (
+                'append', 'extend', 'insert', 'pop', 'remove', 'sort', 'reverse', 'update', 'clear', 'fill'):
+            mutated.add(c.func.value.id)
+    for st_ in fn.stmts(ast.Assign, root):
+        if len(st_.targets) == 1 and isinstance(st_.targets[0], ast.Name):
+            nm = st_.targets[0].id
+            if counts.get(nm) == 1 and nm not in mutated and nm not in fn.params:
+                cdefs[nm] = mkN().n(st_.value)
+    metas = sym.Metas(mnames, pdefs, cdefs)
     best = {'n': -1, 'binding': {}, 'matched': {}}
 
-    def solve(i, binding, matched):
+    def solve(i, binding, matched, skipped):
         if len(matched) > best['n']:
             best.update(n=len(matched), binding=dict(binding), matched=dict(matched))
         if i == len(pats):
+            # a skipped definition must have been met, inlined, inside another documented statement
+            for m in skipped:
+                bm = binding.get(m)
+                if not (isinstance(bm, tuple) and bm and bm[0] == 'expanded'):
+                    return False
+            best.update(n=len(pats) + 1, binding=dict(binding), matched=dict(matched), skipped=list(skipped))
             return True
         inst, pat, src = pats[i]
         for s, nf in nfs:
             if any(s is m for m in matched.values()):
                 continue
-            b = sym.unify(pat, nf, binding, metas)
-            if b is not None:
+            for b in sym._unify(pat, nf, binding, metas):
                 matched[inst] = s
-                if solve(i + 1, b, matched):
+                if solve(i + 1, b, matched, skipped):
                     return True
                 del matched[inst]
+                break          # first unifier per statement is enough; alternatives differ only in AC order
+        if pat[0] == 'assign' and len(pat[1]) == 1 and isinstance(pat[1][0], tuple) and pat[1][0][0] == 'var' \
+                and pat[1][0][1] in pdefs and pat[1][0][1] not in binding:
+            if solve(i + 1, binding, matched, skipped + [pat[1][0][1]]):
+                return True
         return False
 
     init = {}
     for k, v in (fixed or {}).items():
         init[k] = ('var', v) if isinstance(v, str) else v
-    ok = solve(0, init, {})
+    ok = solve(0, init, {}, [])
     if ok:
         for inst, pat, src in pats:
-            fn.ob(rule, inst, True, best['matched'][inst], key=inst)
+            fn.ob(rule, inst, True, best['matched'].get(inst, fn.ast), key=inst)
         _params_not_replaced(fn, rule, best['matched'], rebind_ok)
         out = dict(best['binding'])
         out['__matched__'] = dict(best['matched'])
